@@ -144,7 +144,7 @@ def _compile_init(names: list[str], defaults: dict[str, Any]) -> types.CodeType:
     :return: the compiled code object
     :rtype: code
     """
-    arg_list = ", ".join((f"{name}={defaults.get(name)}" if name in defaults else name) for name in names)
+    arg_list = ", ".join((f"{name}=None" if name in defaults else name) for name in names)
     setters = "\n    ".join([f"self.{name} = {name}" for name in names])
     f_code = f"""
 def __init__(self, {arg_list}):
@@ -237,11 +237,14 @@ def vp_compile(vp_definition: type[T]) -> type[T]:
     local_scope = locals()
 
     # Load the function definitions into the local scope.
-    exec(_compile_init(vp_definition.names, {
+    defaults = {
         k: v.default
         for k, v in inspect.signature(vp_definition.__init__).parameters.items()
         if v.default is not inspect.Parameter.empty
-    }), globals(), local_scope)
+    }
+    exec(_compile_init(vp_definition.names, defaults), globals(), local_scope)
+    # Bind the default values by reference: rendering them as source text only works for a few literal types.
+    local_scope["__init__"].__defaults__ = tuple(defaults[name] for name in vp_definition.names if name in defaults)
     exec(_compile_from_unpack_list(vp_definition, vp_definition.names), globals(), local_scope)
     exec(_compile_to_pack_list(vp_definition, vp_definition.format_list, vp_definition.names), globals(), local_scope)
 
